@@ -425,6 +425,10 @@ def main(tier):
     # "every interleaving yields the serial sweep's result" also needs the level-scheduled row kernel to be the serial one (shared with C06)
     import c06
     c06.rule_gs(ck, {k: v for k, v in units.items() if k == 'rt_builtin'})
+    import c15
+    cu = ir.run_units([dict(name='controls', src=os.path.join(ir.VERIF, 'tus', 'controls.cpp'))], 'C09c')
+    # thread-private scratch objects (one QR per thread, reused for every aggregate of its chunk) are re-initialised per use (shared with C15)
+    c15.rule_F(ck, units, cu['controls'])
     ck.assumptions += ['index arrays selected by an owned index (row pointers, permutations, per-row maps) are injective row maps',
                        'the run-time team size equals omp_get_max_threads() at construction of the level schedules',
                        'bitwise identity of results and summation-order effects of reductions are not decided']
